@@ -69,9 +69,13 @@ M = [
     ("c13_no_setup_mutex", "C13", "broker/backend.go", "\t// acquire setup mutex\n\tm.setupMutex.Lock()\n\tdefer m.setupMutex.Unlock()\n", ""),
     ("c13_clean_takeover_keeps_old", "C13", "broker/backend.go", "\t// kill existing client if session is taken\n\tif ok && existingSession.activeClient != nil {", "\t// kill existing client if session is taken\n\tif ok && existingSession.activeClient != nil && !clean {"),
     ("c13_reuse_drops_stored", "C13 C08", "broker/backend.go", "\t\t// reuse session\n\t\tstoredSession.reuse()\n", "\t\t// reuse session\n\t\tstoredSession.reuse()\n\t\tstoredSession.MemorySession.Reset()\n"),
+    # ---- C14
+    ("c14_terminate_assert", "C14 C12", "broker/backend.go", "\tsess, _ := client.Session().(*memorySession)\n\n\t// release session if available", "\tsess := client.Session().(*memorySession)\n\n\t// release session if available"),
+    ("c14_terminate_only_clean", "C14", "broker/client.go", "\tif atomic.LoadUint32(&c.state) >= clientConnected {\n\t\terr := c.backend.Terminate(c)", "\tif atomic.LoadUint32(&c.state) > clientConnected {\n\t\terr := c.backend.Terminate(c)"),
+    ("c14_closed_only_connected", "C14", "broker/client.go", "\t\t// close channel\n\t\tclose(c.closed)", "\t\t// close channel\n\t\tif atomic.LoadUint32(&c.state) >= clientConnected {\n\t\t\tclose(c.closed)\n\t\t}"),
     # ---- C20
     ("c20_suback_reversed", "C20", "broker/client.go", "\t\tsuback.ReturnCodes[i] = subscription.QOS", "\t\tsuback.ReturnCodes[len(pkt.Subscriptions)-1-i] = subscription.QOS"),
-    ("c20_ignore_unexpected", "C20", "broker/client.go", "\tdefault:\n\t\terr = c.die(ClientError, ErrUnexpectedPacket)\n\t}\n\n\t// return eventual error", "\tdefault:\n\t}\n\n\t// return eventual error"),
+    ("c20_ignore_unexpected", "C20 C14", "broker/client.go", "\tdefault:\n\t\terr = c.die(ClientError, ErrUnexpectedPacket)\n\t}\n\n\t// return eventual error", "\tdefault:\n\t}\n\n\t// return eventual error"),
     ("c20_auth_continue", "C20", "broker/client.go", "\t\t// close client\n\t\treturn c.die(ClientError, ErrNotAuthorized)\n\t}", "\t}"),
 ]
 
